@@ -9,9 +9,11 @@
    (in_fragment, Proofs/CstSound.v: printable ASCII / TAB / LF, no '&', no ':', no '<!D' '<![' '<?xml' 'xmlns';
    attrs_raw: no attribute value was normalised): every ACCEPTED input is the rendering of a well-formed abstract
    document (parse_sound_fragment) -- the parser accepts nothing outside the grammar there -- and its tree is that
-   document's meaning (parse_sound_and_complete).  (4) Truncation: for EVERY accepted document without a DOCTYPE and
+   document's meaning (parse_sound_and_complete).  (4) Truncation: for EVERY accepted document (DOCTYPE and entity expansion included) and
    every cut (on a character boundary) before the end of its root element, the prefix is rejected
-   (truncation_rejected_partial; root_element_end d and firstn_N are defined in Proofs/TruncMain.v).
+   (truncation_rejected; root_element_end d and firstn_N are defined in Proofs/TruncMain.v).  (5) Soundness over
+   Unicode (in_fragment_u, Proofs/CstSoundU.v: valid UTF-8, no CR, '&', ':', '<!D', '<![', '<?xml', 'xmlns', no leading
+   BOM): every accepted input is the rendering of a well-formed document of Spec/CstU.v (parse_sound_fragment_u).
    Statements are pinned here (copied verbatim from the proof files by tools/pin_props.py);
    each is re-proved by `exact` and followed by Print Assumptions. *)
 From Coq Require Import Ascii String.
@@ -21,7 +23,8 @@ From RX Require Import Generated.
 From RX.Model Require Import Base CharClass Stream Tokenizer Doc Builder Parse Api.
 From RX.Spec Require Chars.
 From RX.Spec Require Cst.
-From RX.Proofs Require Import CharTablesProofs RejectProofs WfParseTok WfParseChars WfParse CstSound CstSoundDoc CstSoundCor TruncMain.
+From RX.Proofs Require Import CharTablesProofs RejectProofs WfParseTok WfParseChars WfParse CstSound CstSoundDoc CstSoundCor TruncMain TruncDtdMain CstSoundU CstSoundUDoc CstSoundUCor.
+From RX.Spec Require CstU.
 Open Scope N_scope.
 
 (* ---- Proofs/CharTablesProofs.v ---- *)
@@ -267,3 +270,40 @@ Theorem C08_truncation_rejected_partial :
   exists e, parse (firstn_N n text) opt = Err e.
 Proof. exact truncation_rejected_partial. Qed.
 Print Assumptions C08_truncation_rejected_partial.
+
+(* ---- Proofs/TruncDtdMain.v ---- *)
+Theorem C08_truncation_not_ok :
+  forall text opt d n,
+  valid_utf8_b text = true -> parse text opt = Ok d -> n < root_element_end d ->
+  valid_utf8_b (firstn_N n text) = true ->
+  forall d', parse (firstn_N n text) opt <> Ok d'.
+Proof. exact truncation_not_ok. Qed.
+Print Assumptions C08_truncation_not_ok.
+
+Theorem C08_truncation_rejected :
+  forall text opt d n,
+  nodes_limit opt <= u32_max ->
+  valid_utf8_b text = true -> parse text opt = Ok d -> n < root_element_end d ->
+  valid_utf8_b (firstn_N n text) = true ->
+  exists e, parse (firstn_N n text) opt = Err e.
+Proof. exact truncation_rejected. Qed.
+Print Assumptions C08_truncation_rejected.
+
+(* ---- Proofs/CstSoundUDoc.v ---- *)
+Theorem C08_parse_sound_fragment_u :
+  forall text opt d,
+  in_fragment_u text = true -> parse text opt = Ok d -> attrs_raw d ->
+  exists c : Cst.doc, CstU.wf_doc c = true /\ CstU.render c = text.
+Proof. exact parse_sound_fragment_u. Qed.
+Print Assumptions C08_parse_sound_fragment_u.
+
+(* ---- Proofs/CstSoundUCor.v ---- *)
+Theorem C08_parse_sound_and_complete_u :
+  forall text opt d,
+  in_fragment_u text = true -> parse text opt = Ok d -> attrs_raw d ->
+  N.of_nat (length text) <= nodes_limit opt ->      (* room for all nodes *)
+  N.of_nat (length text) <= u32_max ->              (* the input is at most u32::MAX bytes long *)
+  exists c : Cst.doc,
+    CstU.wf_doc c = true /\ CstU.render c = text /\ CstMain.view text d = CstU.sem c.
+Proof. exact parse_sound_and_complete_u. Qed.
+Print Assumptions C08_parse_sound_and_complete_u.
